@@ -408,20 +408,27 @@ ComparePhys(A, B) ==
       oneRaised == (A.e.raised = "") # (B.e.raised = "")
       raisedSet == SetIf(oneRaised /\ ~(A.far \/ B.far), P \o ".raised_in_one_run")
       raisedKF  == SetIf(oneRaised /\ (A.far \/ B.far), "KF_FarFromOrigin:" \o P \o ".raised_in_one_run")
+      \* the pressure step on tensions assigned by physical interface (equal in both runs by construction): wherever the
+      \* cell graph is connected the pressures of the physical cells must agree, whatever the tension solve did
+      p2Bad == {j \in DOMAIN A.e.pres2 : ~Close(A.e.pres2[j][2], Lookup2(B.e.pres2, A.e.pres2[j][1]), 3000 + Abs(A.e.pres2[j][2]) \div 1000)}
+      p2Judged == A.pconn /\ B.pconn /\ Len(A.e.pres2) > 0 /\ Len(A.e.pres2) = Len(B.e.pres2) /\ ~oneRaised
+      assigned == SetIf(p2Judged /\ p2Bad # {}, P \o ".pressure_assigned")
       juncEq == A.e.junctions = B.e.junctions
       hard == SetIf(juncEq /\ coefBad # {}, P \o ".coefficients")
       line == SetIf(juncEq /\ coefLine # {}, P \o ".coefficients")
   IN IF kind = "relabel"
-     THEN [fails |-> raisedSet \cup (IF oneRaised THEN {} ELSE structural \cup hard \cup (IF kfName = "" THEN numeric ELSE {})),
+     THEN [fails |-> raisedSet \cup assigned \cup (IF oneRaised THEN {} ELSE structural \cup hard \cup (IF kfName = "" THEN numeric ELSE {})),
            kf |-> raisedKF \cup (IF kfName = "" \/ oneRaised THEN {} ELSE {kfName \o ":" \o c : c \in numeric \cup line}),
            hits |-> {P \o ".compared"} \cup SetIf(numOK, P \o ".tension") \cup SetIf(Len(A.e.pres) > 0, P \o ".pressure")
-                    \cup SetIf(Len(A.e.coefs) > 0, P \o ".coefficients") \cup SetIf(kfName = "" /\ both /\ cond, P \o ".clean_case"),
-           rejected |-> ~both \/ ~cond, extraFails |-> {}]
-     ELSE [fails |-> raisedSet \cup (IF oneRaised THEN {} ELSE structural \cup (IF kfName = "" THEN numeric \cup hard ELSE {})),
+                    \cup SetIf(Len(A.e.coefs) > 0, P \o ".coefficients") \cup SetIf(kfName = "" /\ both /\ cond, P \o ".clean_case")
+                    \cup SetIf(p2Judged, P \o ".pressure_assigned"),
+           rejected |-> (~both \/ ~cond) /\ ~p2Judged, extraFails |-> {}]
+     ELSE [fails |-> raisedSet \cup assigned \cup (IF oneRaised THEN {} ELSE structural \cup (IF kfName = "" THEN numeric \cup hard ELSE {})),
            kf |-> raisedKF \cup (IF kfName = "" \/ oneRaised THEN {} ELSE {kfName \o ":" \o c : c \in numeric \cup (IF kfName = "KF_TangentDefects" THEN hard ELSE {})}),
            hits |-> {P \o ".compared"} \cup SetIf(numOK, P \o ".tension") \cup SetIf(Len(A.e.pres) > 0, P \o ".pressure")
-                    \cup SetIf(Len(A.e.coefs) > 0, P \o ".coefficients") \cup SetIf(kfName = "" /\ both /\ cond, P \o ".clean_case"),
-           rejected |-> ~both \/ ~cond,
+                    \cup SetIf(Len(A.e.coefs) > 0, P \o ".coefficients") \cup SetIf(kfName = "" /\ both /\ cond, P \o ".clean_case")
+                    \cup SetIf(p2Judged, P \o ".pressure_assigned"),
+           rejected |-> (~both \/ ~cond) /\ ~p2Judged,
            extraFails |-> IF kfName \notin {"KF_TangentDefects", ""} /\ ~oneRaised THEN hard ELSE {}]
 
 DoPhys(e) ==
@@ -433,7 +440,8 @@ DoPhys(e) ==
                              \/ KF_LineFitPerpEnd(env, q, fm.rows[k].v, Entry(fm.rows[k], ColOf(fm, i)))))
          cur == [case |-> e.case, e |-> e, sol |-> sol, tolC |-> env.tolC, conditioned |-> env.conditioned, contaminated |-> contam,
                  straight |-> {q \in DOMAIN env.E : env.E[q].straight},
-                 far |-> env.offset_sizes > 4000 /\ (bo = None \/ bo.fit = "dlite")]
+                 far |-> env.offset_sizes > 4000 /\ (bo = None \/ bo.fit = "dlite"),
+                 pconn |-> PMConnected]
      IN IF e.run = 1
         THEN EmitV(e, {}, {}, {}, {}, FALSE) /\ prev' = cur
         ELSE /\ (IF prev # None /\ prev.case = e.case
